@@ -77,6 +77,8 @@ func c08r1(r *R) {
 					if strings.HasPrefix(rcv, "p1.") && n != "(*net/http.Request).Context" {
 						o.AtI(i).Fail("the Rewrite function calls %s on %s", n, rcv)
 					}
+				} else if isLoggingCall(n) {
+					// logging, wherever it is written
 				} else if n != "" && !strings.HasPrefix(n, "builtin.") {
 					o.AtI(i).Fail("unexpected call %s in the Rewrite function (not in the reviewed effect list)", n)
 				}
